@@ -96,9 +96,38 @@ def run(ops, size=4096):
     return None
 
 
+def scen_lock_taken():
+    """free() called while the heap lock is taken by this very thread -- what a GC finalizer does when it runs in
+    the middle of malloc()/free(): the block must be deferred to the pending list and nothing else may change"""
+    h = H.Heap(4096)
+    a, b = h.malloc(64), h.malloc(64)
+    before = (dict(h._start_to_block), dict(h._stop_to_block), set(h._allocated_blocks), list(h._lengths))
+    got = h._lock.acquire(False)
+    try:
+        if not got:
+            return 'a fresh heap has its lock taken'
+        h.free(a)
+        after = (dict(h._start_to_block), dict(h._stop_to_block), set(h._allocated_blocks), list(h._lengths))
+        if after != before or h._pending_free_blocks != [a]:
+            return ('free() with the heap lock already taken by this thread changed the indexes (pending list %r): the lock '
+                    'does not tell a reentrant call from a fresh one' % (h._pending_free_blocks,))
+    finally:
+        h._lock.release()
+    c = h.malloc(64)          # drains the pending list first
+    if h._pending_free_blocks or (a in h._allocated_blocks and c != a):
+        return 'malloc() did not drain the pending list: %r' % (h._pending_free_blocks,)
+    bad = invariant(h)
+    return '; '.join(bad) if bad else None
+
+
 def main():
     data = json.load(open(sys.argv[1]))
     print('replay of %s / %s' % (data['function'], data['obligation']))
+    r = scen_lock_taken()
+    if r:
+        print('  violation on real code: ' + r)
+        print('REPRODUCED on real code')
+        sys.exit(1)
     alphabet = [('m', 1), ('m', 8), ('m', 24), ('m', 4000), ('m', 5000), ('f', 0), ('f', 1)]
     found = []
     runs = 0
